@@ -166,11 +166,12 @@ structure ClassDef where
   fields : List (Id × Option Val) := []       -- dataclass fields in order, with constant defaults
   isEnum : Bool := false
   isDataclass : Bool := false
+  methods : List (Id × FuncDef) := []          -- methods, properties, class and static methods defined in the class
 deriving Repr, Inhabited
 
 structure Program where
   classes : List (Id × ClassDef)
-  funcs : List (Id × Id × FuncDef)            -- (class id, or 0 for the module level; name; definition)
+  funcs : List (Id × FuncDef)                 -- module-level functions
   globals : List (Id × Val)
 deriving Repr, Inhabited
 
@@ -204,25 +205,29 @@ def updateD : List (Val × Val) → Val → Val → List (Val × Val)
   | [], x, v => [(x, v)]
   | (k, w) :: r, x, v => if k.beq x then (k, v) :: r else (k, w) :: updateD r x v
 
-def Program.cls? (P : Program) (c : Id) : Option ClassDef :=
-  (P.classes.find? (·.1 == c)).map (·.2)
 
-def findFunc : List (Id × Id × FuncDef) → Id → Id → Option FuncDef
-  | [], _, _ => none
-  | (c, m, fd) :: r, c', m' => if c = c' ∧ m = m' then some fd else findFunc r c' m'
+def findFunc : List (Id × FuncDef) → Id → Option FuncDef
+  | [], _ => none
+  | (m, fd) :: r, m' => if m = m' then some fd else findFunc r m'
+
+def findClass : List (Id × ClassDef) → Id → Option ClassDef
+  | [], _ => none
+  | (c, cd) :: r, c' => if c = c' then some cd else findClass r c'
+
+def Program.cls? (P : Program) (c : Id) : Option ClassDef := findClass P.classes c
 
 /-- method resolution along the (single-inheritance) base chain; `depth` bounds the chain -/
 def Program.method? (P : Program) : Nat → Id → Id → Option (Id × FuncDef)
   | 0, _, _ => none
   | d + 1, c, m =>
-    match findFunc P.funcs c m with
-    | some fd => some (c, fd)
-    | none =>
-      match P.cls? c with
-      | some cd => match cd.base with
+    match P.cls? c with
+    | none => none
+    | some cd =>
+      match findFunc cd.methods m with
+      | some fd => some (c, fd)
+      | none => match cd.base with
         | some b => P.method? d b m
         | none => none
-      | none => none
 
 def Program.isSubclass (P : Program) : Nat → Id → Id → Bool
   | 0, _, _ => false
@@ -343,473 +348,445 @@ def iterItems (P : Program) : Val → Option (List Val)
 /-- how deep a chain of base classes may be -/
 abbrev classDepth : Nat := 6
 
-mutual
+
+/-! ## The interpreter
+
+Written with OPEN recursion: every function below takes the interpreter "one level of fuel down" as a record of
+call-backs (`Rec`); `mkRec` ties the knot by structural recursion on the fuel.  (A `mutual` block over the fuel means
+the same thing, but its compiled form is one enormous term that the kernel has to instantiate at every step; this
+form keeps each unfolding small, which is what makes `decide +kernel` over whole domains affordable.) -/
+
+structure Rec where
+  eval : Env → Expr → R Val
+  exec : Env → List Stmt → R (Env × Flow)
+  call : FuncDef → List Val → R (Val × Val)
+  loop : Env → Expr → List Stmt → R (Env × Flow)
+
+def mapR {α β} (f : α → R β) : List α → R (List β)
+  | [] => pure []
+  | a :: as => do
+    let b ← f a
+    let bs ← mapR f as
+    pure (b :: bs)
 
 /-- call a function with the given arguments; returns the result and the final value of its first parameter (`self`) -/
-def callFn (P : Program) : Nat → FuncDef → List Val → R (Val × Val)
-  | 0, _, _ => throw .fuel
-  | f + 1, fd, args =>
-    match bindParams fd.params fd.defaults args with
-    | none => throw (.exc K.TypeError)
-    | some env => do
-      let (env', fl) ← exec P f env fd.body
-      let self' := match fd.params with
-        | p :: _ => (lookup env' p).getD .none
-        | [] => .none
-      match fl with
-      | .ret v => pure (v, self')
-      | _ => pure (.none, self')
+def callF (r : Rec) (fd : FuncDef) (args : List Val) : R (Val × Val) :=
+  match bindParams fd.params fd.defaults args with
+  | none => throw (.exc K.TypeError)
+  | some env => do
+    let (env', fl) ← r.exec env fd.body
+    let self' := match fd.params with
+      | p :: _ => (lookup env' p).getD .none
+      | [] => .none
+    match fl with
+    | .ret v => pure (v, self')
+    | _ => pure (.none, self')
+
+/-- call method `m` of class `c` (found along the base chain) -/
+def callMethod (r : Rec) (P : Program) (c m : Id) (args : List Val) (missing : Err) : R (Val × Val) :=
+  match P.method? classDepth c m with
+  | some (_, fd) => r.call fd args
+  | none => throw missing
 
 /-- `v.a` -/
-def getAttr (P : Program) : Nat → Val → Id → R Val
-  | 0, _, _ => throw .fuel
-  | f + 1, v, a =>
-    match v with
-    | .none => throw (.exc K.AttributeError)
-    | .enum c n =>
-      if a = K.value then pure (.int n)
-      else if a = K.class__ then pure (.cls c)
-      else if a = K.name then
-        match P.cls? c with
-        | some cd => match memberName? cd n with
-          | some s => pure (.str s)
-          | none => throw (.stuck 1)
-        | none => throw (.stuck 2)
-      else match P.method? classDepth c a with
-        | some (_, fd) => do let (r, _) ← callFn P f fd [v]; pure r       -- a property
-        | none => throw (.exc K.AttributeError)
-    | .obj c fs =>
-      if a = K.class__ then pure (.cls c) else
-      match lookup fs a with
-      | some x => pure x
-      | none => match P.method? classDepth c a with
-        | some (_, fd) => do let (r, _) ← callFn P f fd [v]; pure r
-        | none => throw (.exc K.AttributeError)
-    | .cls c =>
-      -- `cls.N` inside a classmethod: an Enum member by name is resolved by the translator; nothing else is modelled
-      if a = K.name then
-        match P.cls? c with
-        | some cd => pure (.str cd.name)
-        | none => throw (.stuck 3)
-      else throw (.stuck 4)
-    | _ => throw (.stuck 5)
+def getAttrF (r : Rec) (P : Program) (v : Val) (a : Id) : R Val :=
+  match v with
+  | .none => throw (.exc K.AttributeError)
+  | .enum c n =>
+    if a = K.value then pure (.int n)
+    else if a = K.class__ then pure (.cls c)
+    else if a = K.name then
+      match P.cls? c with
+      | some cd => match memberName? cd n with
+        | some s => pure (.str s)
+        | none => throw (.stuck 1)
+      | none => throw (.stuck 2)
+    else do let (x, _) ← callMethod r P c a [v] (.exc K.AttributeError); pure x       -- a property
+  | .obj c fs =>
+    if a = K.class__ then pure (.cls c) else
+    match lookup fs a with
+    | some x => pure x
+    | none => do let (x, _) ← callMethod r P c a [v] (.exc K.AttributeError); pure x
+  | .cls c =>
+    if a = K.name then
+      match P.cls? c with
+      | some cd => pure (.str cd.name)
+      | none => throw (.stuck 3)
+    else throw (.stuck 4)
+  | _ => throw (.stuck 5)
 
 /-- `str(v)` -/
-def strOf (P : Program) : Nat → Val → R (List Char)
-  | 0, _ => throw .fuel
-  | f + 1, v =>
-    match v with
+def strOfF (r : Rec) (P : Program) (v : Val) : R (List Char) :=
+  match v with
+  | .str s => pure s
+  | .int n => pure (intStr n)
+  | .bool b => pure (if b then "True".toList else "False".toList)
+  | .none => pure "None".toList
+  | .enum c _ | .obj c _ => do
+    let (x, _) ← callMethod r P c K.str__ [v] (.stuck 6)          -- default `repr`s are not modelled
+    match x with
     | .str s => pure s
-    | .int n => pure (intStr n)
-    | .bool b => pure (if b then "True".toList else "False".toList)
-    | .none => pure "None".toList
-    | .enum c _ | .obj c _ =>
-      match P.method? classDepth c K.str__ with
-      | some (_, fd) => do
-        let (r, _) ← callFn P f fd [v]
-        match r with
-        | .str s => pure s
-        | _ => throw (.exc K.TypeError)
-      | none => throw (.stuck 6)                  -- default `repr`s are not modelled
-    | _ => throw (.stuck 7)
+    | _ => throw (.exc K.TypeError)
+  | _ => throw (.stuck 7)
 
 /-- ordering comparison -/
-def compareVals (P : Program) : Nat → CmpOp → Val → Val → R Bool
-  | 0, _, _, _ => throw .fuel
-  | f + 1, op, a, b =>
-    match asInt? a, asInt? b with
-    | some x, some y =>
-      match op with
-      | .lt => pure (decide (x < y)) | .le => pure (decide (x ≤ y))
-      | .gt => pure (decide (x > y)) | .ge => pure (decide (x ≥ y))
-      | _ => throw (.stuck 8)
-    | _, _ =>
-      match a with
-      | .obj c _ =>
-        let m := match op with | .lt => K.lt__ | .le => K.le__ | .gt => K.gt__ | _ => K.ge__
-        match P.method? classDepth c m with
-        | some (_, fd) => do let (r, _) ← callFn P f fd [a, b]; pure (truthy r)
-        | none => throw (.exc K.TypeError)
-      | _ => throw (.exc K.TypeError)
+def compareF (r : Rec) (P : Program) (op : CmpOp) (a b : Val) : R Bool :=
+  match asInt? a, asInt? b with
+  | some x, some y =>
+    match op with
+    | .lt => pure (decide (x < y)) | .le => pure (decide (x ≤ y))
+    | .gt => pure (decide (x > y)) | .ge => pure (decide (x ≥ y))
+    | _ => throw (.stuck 8)
+  | _, _ =>
+    match a with
+    | .obj c _ =>
+      let m := match op with | .lt => K.lt__ | .le => K.le__ | .gt => K.gt__ | _ => K.ge__
+      do let (x, _) ← callMethod r P c m [a, b] (.exc K.TypeError); pure (truthy x)
+    | _ => throw (.exc K.TypeError)
 
-def evalArgs (P : Program) : Nat → Env → List Expr → R (List Val)
-  | 0, _, _ => throw .fuel
-  | _ + 1, _, [] => pure []
-  | f + 1, env, e :: es => do
-    let v ← eval P f env e
-    let vs ← evalArgs P f env es
-    pure (v :: vs)
-
-def evalOpt (P : Program) : Nat → Env → Option Expr → R (Option Int)
-  | 0, _, _ => throw .fuel
-  | _ + 1, _, none => pure none
-  | f + 1, env, some e => do
-    match asInt? (← eval P f env e) with
+def optIntF (r : Rec) (env : Env) : Option Expr → R (Option Int)
+  | none => pure none
+  | some e => do
+    match asInt? (← r.eval env e) with
     | some i => pure (some i)
     | none => throw (.exc K.TypeError)
 
 /-- instance construction `C(args)` -/
-def construct (P : Program) : Nat → Id → List Val → R Val
-  | 0, _, _ => throw .fuel
-  | f + 1, c, args =>
-    match P.cls? c with
-    | none => throw (.stuck 9)
-    | some cd =>
-      if cd.isEnum then
-        match args with
-        | [v] => match asInt? v with
-          | some n => if (memberName? cd n).isSome then pure (.enum c n) else throw (.exc K.ValueError)
-          | none => throw (.exc K.ValueError)
-        | _ => throw (.exc K.TypeError)
-      else if cd.isDataclass then
-        -- positional arguments in field order, then the defaults
-        match bindParams (cd.fields.map (·.1)) (cd.fields.filterMap fun (k, d) => d.map (k, ·)) args with
-        | none => throw (.exc K.TypeError)
-        | some fs =>
-          let o := Val.obj c fs
-          match P.method? classDepth c K.postInit with
-          | some (_, fd) => do let (_, o') ← callFn P f fd [o]; pure o'
-          | none => pure o
-      else
-        match P.method? classDepth c K.init with
-        | some (_, fd) => do let (_, o') ← callFn P f fd (Val.obj c [] :: args); pure o'
-        | none => pure (.obj c [])
-
-def eval (P : Program) : Nat → Env → Expr → R Val
-  | 0, _, _ => throw .fuel
-  | f + 1, env, e =>
-    match e with
-    | .const v => pure v
-    | .var x =>
-      match lookup env x with
-      | some v => pure v
-      | none => match lookup P.globals x with
-        | some v => pure v
-        | none => throw (.stuck 10)
-    | .attr e a => do getAttr P f (← eval P f env e) a
-    | .call fn args => do
-      match findFunc P.funcs 0 fn with
-      | some fd => do let (r, _) ← callFn P f fd (← evalArgs P f env args); pure r
-      | none => throw (.stuck 11)
-    | .new c args => do construct P f c (← evalArgs P f env args)
-    | .byName c e => do
-      match P.cls? c, (← eval P f env e) with
-      | some cd, .str s => match memberValue? cd s with
-        | some n => pure (.enum c n)
-        | none => throw (.exc K.KeyError)
-      | _, _ => throw (.exc K.KeyError)
-    | .meth recv m args => do
-      let r ← eval P f env recv
-      match r with
-      | .none => throw (.exc K.AttributeError)
-      | _ =>
-        match classOf? r with
-        | none => throw (.stuck 12)
-        | some c =>
-          match P.method? classDepth c m with
-          | some (_, fd) => do let (v, _) ← callFn P f fd (r :: (← evalArgs P f env args)); pure v
-          | none => throw (.exc K.AttributeError)
-    | .static c m args => do
-      match P.method? classDepth c m with
-      | some (_, fd) => do let (v, _) ← callFn P f fd (← evalArgs P f env args); pure v
-      | none => throw (.exc K.AttributeError)
-    | .binop op a b => do binopVal op (← eval P f env a) (← eval P f env b)
-    | .cmp op a b => do
-      let x ← eval P f env a
-      let y ← eval P f env b
-      match op with
-      | .eq => pure (.bool (x.beq y))
-      | .ne => pure (.bool (!x.beq y))
-      | .is => pure (.bool (x.beq y))          -- the translator admits `is` only against None / Enum members / classes
-      | .isNot => pure (.bool (!x.beq y))
-      | .inn | .notIn =>
-        let neg := op == .notIn
-        match y with
-        | .tuple ys => pure (.bool (containsVal ys x != neg))
-        | .dict kvs => pure (.bool ((lookupD kvs x).isSome != neg))
-        | _ => throw (.exc K.TypeError)
-      | _ => do pure (.bool (← compareVals P f op x y))
-    | .not e => do pure (.bool (!truthy (← eval P f env e)))
-    | .and a b => do
-      let x ← eval P f env a
-      if truthy x then eval P f env b else pure x
-    | .or a b => do
-      let x ← eval P f env a
-      if truthy x then pure x else eval P f env b
-    | .neg e => do
-      match asInt? (← eval P f env e) with
-      | some n => pure (.int (-n))
-      | none => throw (.exc K.TypeError)
-    | .ifexp c t e => do
-      if truthy (← eval P f env c) then eval P f env t else eval P f env e
-    | .index e i => do
-      let x ← eval P f env e
-      let iv ← eval P f env i
-      match x with
-      | .tuple xs =>
-        match asInt? iv with
-        | some n => match normIndex xs.length n with
-          | some k => pure (xs.getD k .none)
-          | none => throw (.exc K.IndexError)
-        | none => throw (.exc K.TypeError)
-      | .str s =>
-        match asInt? iv with
-        | some n => match normIndex s.length n with
-          | some k => pure (.str [s.getD k ' '])
-          | none => throw (.exc K.IndexError)
-        | none => throw (.exc K.TypeError)
-      | .dict kvs =>
-        match lookupD kvs iv with
-        | some v => pure v
-        | none => throw (.exc K.KeyError)
-      | .obj c _ =>
-        match P.method? classDepth c K.getitem__ with
-        | some (_, fd) => do let (v, _) ← callFn P f fd [x, iv]; pure v
-        | none => throw (.exc K.TypeError)
-      | _ => throw (.exc K.TypeError)
-    | .slice e lo hi => do
-      let x ← eval P f env e
-      let l ← evalOpt P f env lo
-      let h ← evalOpt P f env hi
-      match x with
-      | .tuple xs => pure (.tuple (sliceList xs l h))
-      | .str s => pure (.str (sliceList s l h))
-      | _ => throw (.exc K.TypeError)
-    | .tuple es => do pure (.tuple (← evalArgs P f env es))
-    | .fstr es => do
-      let vs ← evalArgs P f env es
-      let ss ← strAll P f vs
-      pure (.str ss)
-    | .dictOf kvs => do
-      let ks ← evalArgs P f env (kvs.map (·.1))
-      let vs ← evalArgs P f env (kvs.map (·.2))
-      pure (.dict ((ks.zip vs).foldl (fun acc (k, v) => updateD acc k v) []))
-    | .comp x iter cond body => do
-      match iterItems P (← eval P f env iter) with
-      | none => throw (.exc K.TypeError)
-      | some items => do pure (.tuple (← compItems P f env x items cond body))
-    | .dictComp x iter k v => do
-      match iterItems P (← eval P f env iter) with
-      | none => throw (.exc K.TypeError)
-      | some items => do pure (.dict (← dictCompItems P f env x items k v))
-    | .builtin b args => do
-      let vs ← evalArgs P f env args
-      match b, vs with
-      | .abs, [v] => match asInt? v with
-        | some n => pure (.int (Int.ofNat n.natAbs))
-        | none => throw (.exc K.TypeError)
-      | .len, [.tuple xs] => pure (.int (Int.ofNat xs.length))
-      | .len, [.str s] => pure (.int (Int.ofNat s.length))
-      | .len, [.dict kvs] => pure (.int (Int.ofNat kvs.length))
-      | .len, [_] => throw (.exc K.TypeError)
-      | .int, [.str s] => match parseInt? s with
-        | some n => pure (.int n)
+def constructF (r : Rec) (P : Program) (c : Id) (args : List Val) : R Val :=
+  match P.cls? c with
+  | none => throw (.stuck 9)
+  | some cd =>
+    if cd.isEnum then
+      match args with
+      | [v] => match asInt? v with
+        | some n => if (memberName? cd n).isSome then pure (.enum c n) else throw (.exc K.ValueError)
         | none => throw (.exc K.ValueError)
-      | .int, [.obj c fs] =>
-        match P.method? classDepth c K.int__ with
-        | some (_, fd) => do let (r, _) ← callFn P f fd [.obj c fs]; pure r
-        | none => throw (.exc K.TypeError)
-      | .int, [v] => match asInt? v with
-        | some n => pure (.int n)
-        | none => throw (.exc K.TypeError)
-      | .str, [v] => do pure (.str (← strOf P f v))
-      | .tuple, [] => pure (.tuple [])
-      | .tuple, [v] => match iterItems P v with
-        | some xs => pure (.tuple xs)
-        | none => throw (.exc K.TypeError)
-      | .set, [] => pure (.tuple [])
-      | .set, [v] => match iterItems P v with
-        | some xs => pure (.tuple (xs.foldl (fun acc x => if containsVal acc x then acc else acc ++ [x]) []))
-        | none => throw (.exc K.TypeError)
-      | .range, [v] => match asInt? v with
-        | some n => pure (.tuple ((List.range n.toNat).map fun i => .int (Int.ofNat i)))
-        | none => throw (.exc K.TypeError)
-      | .enumerate, [v] => match iterItems P v with
-        | some xs => pure (.tuple (xs.mapIdx fun i x => .tuple [.int (Int.ofNat i), x]))
-        | none => throw (.exc K.TypeError)
-      | .npOnes, [v] => match asInt? v with
-        | some n => pure (.tuple (List.replicate n.toNat (.int 1)))
-        | none => throw (.exc K.TypeError)
-      | .isinstance, [v, .cls c] =>
-        match classOf? v with
-        | some c' => pure (.bool (P.isSubclass classDepth c' c))
-        | none => pure (.bool false)
-      | _, _ => throw (.stuck 13)
+      | _ => throw (.exc K.TypeError)
+    else if cd.isDataclass then
+      -- positional arguments in field order, then the defaults
+      match bindParams (cd.fields.map (·.1)) (cd.fields.filterMap fun (k, d) => d.map (k, ·)) args with
+      | none => throw (.exc K.TypeError)
+      | some fs =>
+        let o := Val.obj c fs
+        match P.method? classDepth c K.postInit with
+        | some (_, fd) => do let (_, o') ← r.call fd [o]; pure o'
+        | none => pure o
+    else
+      match P.method? classDepth c K.init with
+      | some (_, fd) => do let (_, o') ← r.call fd (Val.obj c [] :: args); pure o'
+      | none => pure (.obj c [])
 
-def strAll (P : Program) : Nat → List Val → R (List Char)
-  | 0, _ => throw .fuel
-  | _ + 1, [] => pure []
-  | f + 1, v :: vs => do
-    let s ← strOf P f v
-    let r ← strAll P f vs
-    pure (s ++ r)
+def indexF (r : Rec) (P : Program) (x iv : Val) : R Val :=
+  match x with
+  | .tuple xs =>
+    match asInt? iv with
+    | some n => match normIndex xs.length n with
+      | some k => pure (xs.getD k .none)
+      | none => throw (.exc K.IndexError)
+    | none => throw (.exc K.TypeError)
+  | .str s =>
+    match asInt? iv with
+    | some n => match normIndex s.length n with
+      | some k => pure (.str [s.getD k ' '])
+      | none => throw (.exc K.IndexError)
+    | none => throw (.exc K.TypeError)
+  | .dict kvs =>
+    match lookupD kvs iv with
+    | some v => pure v
+    | none => throw (.exc K.KeyError)
+  | .obj c _ => do let (v, _) ← callMethod r P c K.getitem__ [x, iv] (.exc K.TypeError); pure v
+  | _ => throw (.exc K.TypeError)
 
-def compItems (P : Program) : Nat → Env → Id → List Val → Option Expr → Expr → R (List Val)
-  | 0, _, _, _, _, _ => throw .fuel
-  | _ + 1, _, _, [], _, _ => pure []
-  | f + 1, env, x, it :: items, cond, body => do
+def builtinF (r : Rec) (P : Program) (b : Builtin) (vs : List Val) : R Val :=
+  match b, vs with
+  | .abs, [v] => match asInt? v with
+    | some n => pure (.int (Int.ofNat n.natAbs))
+    | none => throw (.exc K.TypeError)
+  | .len, [.tuple xs] => pure (.int (Int.ofNat xs.length))
+  | .len, [.str s] => pure (.int (Int.ofNat s.length))
+  | .len, [.dict kvs] => pure (.int (Int.ofNat kvs.length))
+  | .len, [_] => throw (.exc K.TypeError)
+  | .int, [.str s] => match parseInt? s with
+    | some n => pure (.int n)
+    | none => throw (.exc K.ValueError)
+  | .int, [.obj c fs] => do let (x, _) ← callMethod r P c K.int__ [.obj c fs] (.exc K.TypeError); pure x
+  | .int, [v] => match asInt? v with
+    | some n => pure (.int n)
+    | none => throw (.exc K.TypeError)
+  | .str, [v] => do pure (.str (← strOfF r P v))
+  | .tuple, [] => pure (.tuple [])
+  | .tuple, [v] => match iterItems P v with
+    | some xs => pure (.tuple xs)
+    | none => throw (.exc K.TypeError)
+  | .set, [] => pure (.tuple [])
+  | .set, [v] => match iterItems P v with
+    | some xs => pure (.tuple (xs.foldl (fun acc x => if containsVal acc x then acc else acc ++ [x]) []))
+    | none => throw (.exc K.TypeError)
+  | .range, [v] => match asInt? v with
+    | some n => pure (.tuple ((List.range n.toNat).map fun i => .int (Int.ofNat i)))
+    | none => throw (.exc K.TypeError)
+  | .enumerate, [v] => match iterItems P v with
+    | some xs => pure (.tuple (xs.mapIdx fun i x => .tuple [.int (Int.ofNat i), x]))
+    | none => throw (.exc K.TypeError)
+  | .npOnes, [v] => match asInt? v with
+    | some n => pure (.tuple (List.replicate n.toNat (.int 1)))
+    | none => throw (.exc K.TypeError)
+  | .isinstance, [v, .cls c] =>
+    match classOf? v with
+    | some c' => pure (.bool (P.isSubclass classDepth c' c))
+    | none => pure (.bool false)
+  | _, _ => throw (.stuck 13)
+
+def cmpF (r : Rec) (P : Program) (op : CmpOp) (x y : Val) : R Val :=
+  match op with
+  | .eq => pure (.bool (x.beq y))
+  | .ne => pure (.bool (!x.beq y))
+  | .is => pure (.bool (x.beq y))          -- the translator admits `is` only against None / Enum members / classes
+  | .isNot => pure (.bool (!x.beq y))
+  | .inn | .notIn =>
+    let neg := op == .notIn
+    match y with
+    | .tuple ys => pure (.bool (containsVal ys x != neg))
+    | .dict kvs => pure (.bool ((lookupD kvs x).isSome != neg))
+    | _ => throw (.exc K.TypeError)
+  | _ => do pure (.bool (← compareF r P op x y))
+
+def compF (r : Rec) (env : Env) (x : Id) (cond : Option Expr) (body : Expr) : List Val → R (List Val)
+  | [] => pure []
+  | it :: items => do
     let env' := update env x it
     let keep ← match cond with
-      | some c => do pure (truthy (← eval P f env' c))
+      | some c => do pure (truthy (← r.eval env' c))
       | none => pure true
-    let rest ← compItems P f env x items cond body
+    let rest ← compF r env x cond body items
     if keep then do
-      let v ← eval P f env' body
+      let v ← r.eval env' body
       pure (v :: rest)
     else pure rest
 
-def dictCompItems (P : Program) : Nat → Env → Id → List Val → Expr → Expr → R (List (Val × Val))
-  | 0, _, _, _, _, _ => throw .fuel
-  | _ + 1, _, _, [], _, _ => pure []
-  | f + 1, env, x, it :: items, k, v => do
+def dictCompF (r : Rec) (env : Env) (x : Id) (k v : Expr) : List Val → R (List (Val × Val))
+  | [] => pure []
+  | it :: items => do
     let env' := update env x it
-    let kv ← eval P f env' k
-    let vv ← eval P f env' v
-    let rest ← dictCompItems P f env x items k v
+    let kv ← r.eval env' k
+    let vv ← r.eval env' v
+    let rest ← dictCompF r env x k v items
     pure ((kv, vv) :: rest)
 
+def methF (r : Rec) (P : Program) (recv : Val) (m : Id) (args : List Val) : R (Val × Val) :=
+  match recv with
+  | .none => throw (.exc K.AttributeError)
+  | _ =>
+    match classOf? recv with
+    | none => throw (.stuck 12)
+    | some c => callMethod r P c m (recv :: args) (.exc K.AttributeError)
+
+def evalF (r : Rec) (P : Program) (env : Env) (e : Expr) : R Val :=
+  match e with
+  | .const v => pure v
+  | .var x =>
+    match lookup env x with
+    | some v => pure v
+    | none => match lookup P.globals x with
+      | some v => pure v
+      | none => throw (.stuck 10)
+  | .attr e a => do getAttrF r P (← r.eval env e) a
+  | .call fn args =>
+    match findFunc P.funcs fn with
+    | some fd => do let (x, _) ← r.call fd (← mapR (r.eval env) args); pure x
+    | none => throw (.stuck 11)
+  | .new c args => do constructF r P c (← mapR (r.eval env) args)
+  | .byName c e => do
+    match P.cls? c, (← r.eval env e) with
+    | some cd, .str s => match memberValue? cd s with
+      | some n => pure (.enum c n)
+      | none => throw (.exc K.KeyError)
+    | _, _ => throw (.exc K.KeyError)
+  | .meth recv m args => do
+    let x ← r.eval env recv
+    let (v, _) ← methF r P x m (← mapR (r.eval env) args)
+    pure v
+  | .static c m args => do
+    let (v, _) ← callMethod r P c m (← mapR (r.eval env) args) (.exc K.AttributeError)
+    pure v
+  | .binop op a b => do binopVal op (← r.eval env a) (← r.eval env b)
+  | .cmp op a b => do cmpF r P op (← r.eval env a) (← r.eval env b)
+  | .not e => do pure (.bool (!truthy (← r.eval env e)))
+  | .and a b => do
+    let x ← r.eval env a
+    if truthy x then r.eval env b else pure x
+  | .or a b => do
+    let x ← r.eval env a
+    if truthy x then pure x else r.eval env b
+  | .neg e => do
+    match asInt? (← r.eval env e) with
+    | some n => pure (.int (-n))
+    | none => throw (.exc K.TypeError)
+  | .ifexp c t e => do
+    if truthy (← r.eval env c) then r.eval env t else r.eval env e
+  | .index e i => do indexF r P (← r.eval env e) (← r.eval env i)
+  | .slice e lo hi => do
+    let x ← r.eval env e
+    let l ← optIntF r env lo
+    let h ← optIntF r env hi
+    match x with
+    | .tuple xs => pure (.tuple (sliceList xs l h))
+    | .str s => pure (.str (sliceList s l h))
+    | _ => throw (.exc K.TypeError)
+  | .tuple es => do pure (.tuple (← mapR (r.eval env) es))
+  | .fstr es => do
+    let vs ← mapR (r.eval env) es
+    let ss ← mapR (strOfF r P) vs
+    pure (.str ss.flatten)
+  | .dictOf kvs => do
+    let ks ← mapR (r.eval env) (kvs.map (·.1))
+    let vs ← mapR (r.eval env) (kvs.map (·.2))
+    pure (.dict ((ks.zip vs).foldl (fun acc (k, v) => updateD acc k v) []))
+  | .comp x iter cond body => do
+    match iterItems P (← r.eval env iter) with
+    | none => throw (.exc K.TypeError)
+    | some items => do pure (.tuple (← compF r env x cond body items))
+  | .dictComp x iter k v => do
+    match iterItems P (← r.eval env iter) with
+    | none => throw (.exc K.TypeError)
+    | some items => do pure (.dict (← dictCompF r env x k v items))
+  | .builtin b args => do builtinF r P b (← mapR (r.eval env) args)
+
 /-- write `v` at the path `t` -/
-def assignTo (P : Program) : Nat → Env → Target → Val → R Env
-  | 0, _, _, _ => throw .fuel
-  | f + 1, env, t, v =>
-    match t with
-    | .var x => pure (update env x v)
-    | .attr t' a => do
-      match (← eval P f env t'.toExpr) with
-      | .obj c fs => assignTo P f env t' (.obj c (setField fs a v))
-      | _ => throw (.exc K.AttributeError)
-    | .index t' i => do
-      let old ← eval P f env t'.toExpr
-      let iv ← eval P f env i
-      match old with
-      | .tuple xs =>
-        match asInt? iv with
-        | some n => match normIndex xs.length n with
-          | some k => assignTo P f env t' (.tuple (replaceAt xs k v))
-          | none => throw (.exc K.IndexError)
-        | none => throw (.exc K.TypeError)
-      | .dict kvs => assignTo P f env t' (.dict (updateD kvs iv v))
-      | _ => throw (.exc K.TypeError)
-
-def assignAll (P : Program) : Nat → Env → List Target → List Val → R Env
-  | 0, _, _, _ => throw .fuel
-  | _ + 1, env, [], [] => pure env
-  | f + 1, env, t :: ts, v :: vs => do
-    let env' ← assignTo P f env t v
-    assignAll P f env' ts vs
-  | _ + 1, _, _, _ => throw (.exc K.ValueError)
-
-def execStmt (P : Program) : Nat → Env → Stmt → R (Env × Flow)
-  | 0, _, _ => throw .fuel
-  | f + 1, env, s =>
-    match s with
-    | .assign t e => do
-      let v ← eval P f env e
-      pure (← assignTo P f env t v, .next)
-    | .unpack ts e => do
-      match (← eval P f env e) with
-      | .tuple vs => do pure (← assignAll P f env ts vs, .next)
-      | _ => throw (.exc K.TypeError)
-    | .sliceFill t lo hi e => do
-      let v ← eval P f env e
-      let l ← evalOpt P f env lo
-      let h ← evalOpt P f env hi
-      match (← eval P f env t.toExpr) with
-      | .tuple xs => do pure (← assignTo P f env t (.tuple (fillSlice xs l h v)), .next)
-      | _ => throw (.exc K.TypeError)
-    | .mut t op e => do
-      let v ← eval P f env e
-      match (← eval P f env t.toExpr) with
-      | .tuple xs =>
-        match op with
-        | .append => do pure (← assignTo P f env t (.tuple (xs ++ [v])), .next)
-        | .add => do pure (← assignTo P f env t (.tuple (if containsVal xs v then xs else xs ++ [v])), .next)
-        | .remove =>
-          match removeFirst xs v with
-          | some ys => do pure (← assignTo P f env t (.tuple ys), .next)
-          | none => throw (.exc K.KeyError)
-      | .none => throw (.exc K.AttributeError)
-      | _ => throw (.exc K.TypeError)
-    | .callMut t m args => do
-      let r ← eval P f env t.toExpr
-      match r with
-      | .none => throw (.exc K.AttributeError)
-      | _ =>
-        match classOf? r with
-        | none => throw (.stuck 14)
-        | some c =>
-          match P.method? classDepth c m with
-          | some (_, fd) => do
-            let (_, r') ← callFn P f fd (r :: (← evalArgs P f env args))
-            pure (← assignTo P f env t r', .next)
-          | none => throw (.exc K.AttributeError)
-    | .callMutStatic c m args => do
-      match P.method? classDepth c m with
-      | some (_, fd) => do
-        let vs ← evalArgs P f env args
-        let (_, r') ← callFn P f fd vs
-        pure (update env K.self r', .next)
-      | none => throw (.exc K.AttributeError)
-    | .expr e => do let _ ← eval P f env e; pure (env, .next)
-    | .ite c t e => do
-      if truthy (← eval P f env c) then exec P f env t else exec P f env e
-    | .while c body => execWhile P f env c body
-    | .for xs iter body => do
-      match iterItems P (← eval P f env iter) with
-      | some items => execFor P f env xs items body
+def assignToF (r : Rec) (env : Env) : Target → Val → R Env
+  | .var x, v => pure (update env x v)
+  | .attr t' a, v => do
+    match (← r.eval env t'.toExpr) with
+    | .obj c fs => assignToF r env t' (.obj c (setField fs a v))
+    | _ => throw (.exc K.AttributeError)
+  | .index t' i, v => do
+    let old ← r.eval env t'.toExpr
+    let iv ← r.eval env i
+    match old with
+    | .tuple xs =>
+      match asInt? iv with
+      | some n => match normIndex xs.length n with
+        | some k => assignToF r env t' (.tuple (replaceAt xs k v))
+        | none => throw (.exc K.IndexError)
       | none => throw (.exc K.TypeError)
-    | .ret e => do pure (env, .ret (← eval P f env e))
-    | .raise c => throw (.exc c)
-    | .assert e => do
-      if truthy (← eval P f env e) then pure (env, .next) else throw (.exc K.AssertionError)
-    | .brk => pure (env, .brk)
-    | .cont => pure (env, .cont)
-    | .pass => pure (env, .next)
+    | .dict kvs => assignToF r env t' (.dict (updateD kvs iv v))
+    | _ => throw (.exc K.TypeError)
 
-def exec (P : Program) : Nat → Env → List Stmt → R (Env × Flow)
-  | 0, _, _ => throw .fuel
-  | _ + 1, env, [] => pure (env, .next)
-  | f + 1, env, s :: ss => do
-    let (env', fl) ← execStmt P f env s
-    match fl with
-    | .next => exec P f env' ss
-    | _ => pure (env', fl)
+def assignAllF (r : Rec) : Env → List Target → List Val → R Env
+  | env, [], [] => pure env
+  | env, t :: ts, v :: vs => do
+    let env' ← assignToF r env t v
+    assignAllF r env' ts vs
+  | _, _, _ => throw (.exc K.ValueError)
 
-def execWhile (P : Program) : Nat → Env → Expr → List Stmt → R (Env × Flow)
-  | 0, _, _, _ => throw .fuel
-  | f + 1, env, c, body => do
-    if truthy (← eval P f env c) then do
-      let (env', fl) ← exec P f env body
-      match fl with
-      | .brk => pure (env', .next)
-      | .ret v => pure (env', .ret v)
-      | _ => execWhile P f env' c body
-    else pure (env, .next)
-
-def execFor (P : Program) : Nat → Env → List Id → List Val → List Stmt → R (Env × Flow)
-  | 0, _, _, _, _ => throw .fuel
-  | _ + 1, env, _, [], _ => pure (env, .next)
-  | f + 1, env, xs, it :: items, body => do
+def forF (r : Rec) (xs : List Id) (body : List Stmt) : Env → List Val → R (Env × Flow)
+  | env, [] => pure (env, .next)
+  | env, it :: items => do
     let env1 ← match xs, it with
       | [x], v => pure (update env x v)
       | xs, .tuple vs =>
         if xs.length = vs.length then pure ((xs.zip vs).foldl (fun e (x, v) => update e x v) env)
         else throw (.exc K.ValueError)
       | _, _ => throw (.exc K.TypeError)
-    let (env', fl) ← exec P f env1 body
+    let (env', fl) ← r.exec env1 body
     match fl with
     | .brk => pure (env', .next)
     | .ret v => pure (env', .ret v)
-    | _ => execFor P f env' xs items body
+    | _ => forF r xs body env' items
 
-end
+def mutF (op : MutOp) (xs : List Val) (v : Val) : R (List Val) :=
+  match op with
+  | .append => pure (xs ++ [v])
+  | .add => pure (if containsVal xs v then xs else xs ++ [v])
+  | .remove =>
+    match removeFirst xs v with
+    | some ys => pure ys
+    | none => throw (.exc K.KeyError)
+
+def execStmtF (r : Rec) (P : Program) (env : Env) (s : Stmt) : R (Env × Flow) :=
+  match s with
+  | .assign t e => do
+    let v ← r.eval env e
+    pure (← assignToF r env t v, .next)
+  | .unpack ts e => do
+    match (← r.eval env e) with
+    | .tuple vs => do pure (← assignAllF r env ts vs, .next)
+    | _ => throw (.exc K.TypeError)
+  | .sliceFill t lo hi e => do
+    let v ← r.eval env e
+    let l ← optIntF r env lo
+    let h ← optIntF r env hi
+    match (← r.eval env t.toExpr) with
+    | .tuple xs => do pure (← assignToF r env t (.tuple (fillSlice xs l h v)), .next)
+    | _ => throw (.exc K.TypeError)
+  | .mut t op e => do
+    let v ← r.eval env e
+    match (← r.eval env t.toExpr) with
+    | .tuple xs => do pure (← assignToF r env t (.tuple (← mutF op xs v)), .next)
+    | .none => throw (.exc K.AttributeError)
+    | _ => throw (.exc K.TypeError)
+  | .callMut t m args => do
+    let x ← r.eval env t.toExpr
+    let (_, x') ← methF r P x m (← mapR (r.eval env) args)
+    pure (← assignToF r env t x', .next)
+  | .callMutStatic c m args => do
+    let (_, x') ← callMethod r P c m (← mapR (r.eval env) args) (.exc K.AttributeError)
+    pure (update env K.self x', .next)
+  | .expr e => do let _ ← r.eval env e; pure (env, .next)
+  | .ite c t e => do
+    if truthy (← r.eval env c) then r.exec env t else r.exec env e
+  | .while c body => r.loop env c body
+  | .for xs iter body => do
+    match iterItems P (← r.eval env iter) with
+    | some items => forF r xs body env items
+    | none => throw (.exc K.TypeError)
+  | .ret e => do pure (env, .ret (← r.eval env e))
+  | .raise c => throw (.exc c)
+  | .assert e => do
+    if truthy (← r.eval env e) then pure (env, .next) else throw (.exc K.AssertionError)
+  | .brk => pure (env, .brk)
+  | .cont => pure (env, .cont)
+  | .pass => pure (env, .next)
+
+def execF (r : Rec) (P : Program) : Env → List Stmt → R (Env × Flow)
+  | env, [] => pure (env, .next)
+  | env, s :: ss => do
+    let (env', fl) ← execStmtF r P env s
+    match fl with
+    | .next => execF r P env' ss
+    | _ => pure (env', fl)
+
+def loopF (r : Rec) (env : Env) (c : Expr) (body : List Stmt) : R (Env × Flow) := do
+  if truthy (← r.eval env c) then do
+    let (env', fl) ← r.exec env body
+    match fl with
+    | .brk => pure (env', .next)
+    | .ret v => pure (env', .ret v)
+    | _ => r.loop env' c body
+  else pure (env, .next)
+
+/-- the interpreter with `fuel` levels left: a level is spent at every sub-expression, nested block, call and loop turn -/
+def mkRec (P : Program) : Nat → Rec
+  | 0 =>
+    { eval := fun _ _ => throw .fuel, exec := fun _ _ => throw .fuel, call := fun _ _ => throw .fuel,
+      loop := fun _ _ _ => throw .fuel }
+  | f + 1 =>
+    { eval := fun env e => evalF (mkRec P f) P env e,
+      exec := fun env ss => execF (mkRec P f) P env ss,
+      call := fun fd args => callF (mkRec P f) fd args,
+      loop := fun env c body => loopF (mkRec P f) env c body }
+
+def eval (P : Program) (fuel : Nat) (env : Env) (e : Expr) : R Val := (mkRec P fuel).eval env e
+def exec (P : Program) (fuel : Nat) (env : Env) (ss : List Stmt) : R (Env × Flow) := (mkRec P fuel).exec env ss
+def callFn (P : Program) (fuel : Nat) (fd : FuncDef) (args : List Val) : R (Val × Val) := (mkRec P fuel).call fd args
+def construct (P : Program) (fuel : Nat) (c : Id) (args : List Val) : R Val := constructF (mkRec P fuel) P c args
 
 /-- the fuel every top-level call is given (far above what any function of the core needs) -/
 abbrev topFuel : Nat := 100000
 
 /-- run a module-level function -/
 def Program.runFn (P : Program) (fn : Id) (args : List Val) : R Val :=
-  match findFunc P.funcs 0 fn with
+  match findFunc P.funcs fn with
   | some fd => (callFn P topFuel fd args).map (·.1)
   | none => throw (.stuck 20)
 
